@@ -131,11 +131,19 @@ func ExpandLiteral(s string) (string, error) {
 // string, expand any shell symbols (such as '~') and resolve any environment
 // variables. It also expands brace expressions ({a.b}) and globs (*/**) and
 // returns the results as a list of strings.
-func ExpandFields(s string) ([]string, error) {
+func ExpandFields(s string) (fields []string, err error) {
+	// expand.Fields compiles the regular expression it derives from a glob with
+	// regexp.MustCompile; a pattern it translates badly (for example one that
+	// holds U+2028) must end in an error, not take the process down
+	defer func() {
+		if r := recover(); r != nil {
+			fields, err = nil, fmt.Errorf("task: cannot expand %q: %v", s, r)
+		}
+	}()
 	s = escape(s)
 	p := syntax.NewParser()
 	var words []*syntax.Word
-	err := p.Words(strings.NewReader(s), func(w *syntax.Word) bool {
+	err = p.Words(strings.NewReader(s), func(w *syntax.Word) bool {
 		words = append(words, w)
 		return true
 	})
